@@ -39,6 +39,11 @@ impl<T> Element<T> {
         &&& uniq_kids(self.children@)
         &&& forall|i: int| 0 <= i < self.children@.len() ==> (#[trigger] self.children@[i]).val().wf()
     }
+    /// every field except `position` agrees
+    pub open spec fn same_but_position(self, o: Element<T>) -> bool {
+        self.name == o.name && self.text == o.text && self.standalone == o.standalone && self.count == o.count
+            && self.attributes == o.attributes && self.children == o.children
+    }
     /// every field except `children` agrees
     pub open spec fn same_but_children(self, o: Element<T>) -> bool {
         self.name == o.name && self.text == o.text && self.standalone == o.standalone && self.count == o.count
